@@ -69,7 +69,9 @@ func freePort() (string, error) {
 }
 
 // startGateway starts the gateway on a free localhost port with a fresh work
-// directory under base. env entries (NOKV_VERIF_DETECT=..) are passed through.
+// directory under base. env entries are passed through; with
+// NOKV_VERIF_MODE=raftfake the hook serves the raft backend over its
+// in-process fake client on NOKV_VERIF_ADDR instead of opening a database.
 func startGateway(bin, base string, env ...string) (*gateway, error) {
 	dir, err := os.MkdirTemp(base, "gw-")
 	if err != nil {
@@ -86,7 +88,7 @@ func startGateway(bin, base string, env ...string) (*gateway, error) {
 			return nil, err
 		}
 		cmd := guarded(bin, 16<<20, "-addr", addr, "-workdir", filepath.Join(dir, "work"))
-		cmd.Env = append(os.Environ(), env...)
+		cmd.Env = append(append(os.Environ(), env...), "NOKV_VERIF_ADDR="+addr)
 		cmd.Stdout, cmd.Stderr = logf, logf
 		if err := cmd.Start(); err != nil {
 			return nil, err
